@@ -1,5 +1,48 @@
 use super::{hex, unhex};
 use simfony::num::U256;
+use simfony::parse::ParseFromStr;
+use simfony::{Arguments, CompiledProgram, WitnessValues};
+
+/// compile `src` with the given argument / witness modules (module text, may be empty), run it on the Bit Machine
+fn run_program(src: &str, args_text: &str, wit_text: &str, debug: bool) -> String {
+    let arguments = if args_text.is_empty() {
+        Arguments::default()
+    } else {
+        match Arguments::parse_from_str(args_text) {
+            Ok(x) => x,
+            Err(e) => return format!("args-err {}", e.to_string().replace('\n', " ")),
+        }
+    };
+    let witness = if wit_text.is_empty() {
+        WitnessValues::default()
+    } else {
+        match WitnessValues::parse_from_str(wit_text) {
+            Ok(x) => x,
+            Err(e) => return format!("witness-err {}", e.to_string().replace('\n', " ")),
+        }
+    };
+    let compiled = match CompiledProgram::new(src, arguments, debug) {
+        Ok(x) => x,
+        Err(e) => return format!("compile-err {}", e.replace('\n', " ")),
+    };
+    let satisfied = match compiled.satisfy(witness) {
+        Ok(x) => x,
+        Err(e) => return format!("satisfy-err {}", e.replace('\n', " ")),
+    };
+    let env = simfony::dummy_env::dummy();
+    let pruned = match satisfied.redeem().prune(&env) {
+        Ok(x) => x,
+        Err(e) => return format!("exec-fail {}", e.to_string().replace('\n', " ")),
+    };
+    let mut mac = match simfony::simplicity::BitMachine::for_program(&pruned) {
+        Ok(m) => m,
+        Err(e) => return format!("exec-fail limits {}", e.to_string().replace('\n', " ")),
+    };
+    match mac.exec(&pruned, &env) {
+        Ok(_) => "ok".to_string(),
+        Err(e) => format!("exec-fail {}", e.to_string().replace('\n', " ")),
+    }
+}
 
 pub fn dispatch(parts: &[&str]) -> String {
     match parts[0] {
@@ -16,6 +59,10 @@ pub fn dispatch(parts: &[&str]) -> String {
             let mut a = [0u8; 32];
             a.copy_from_slice(&b);
             format!("ok {}", U256::from_byte_array(a))
+        }
+        "run" => {
+            // run <src> <args module> <witness module> <debug 0|1>
+            run_program(&unhex(parts[1]), &unhex(parts[2]), &unhex(parts[3]), parts.get(4) == Some(&"1"))
         }
         other => format!("err unknown-op {}", other),
     }
